@@ -368,6 +368,36 @@ func init() {
 	})
 
 	// ----- strconv on symbolic strings falls back to concretisation of digits: handled by interpreting strconv itself -----
+	// abstract codec, decode side: the decimal text of a symbolic integer (an "int" token made by
+	// Sprintf under int_tokens) parses back to that integer; a string that merely contains a token
+	// is outside the model and fails loud instead of being rejected as "not a number".
+	parseTok := func(fr *frame, args []Value, width uint8) (Value, bool) {
+		cs, ok := args[0].(string)
+		if !ok || !strings.Contains(cs, "\x00") {
+			return nil, false
+		}
+		kind, pay, ok := fr.m.tokenPayload(cs)
+		if !ok || kind != "int" {
+			fr.m.unsupported("strconv parse of a string containing an abstract-codec token")
+		}
+		t := pay.(*term.Term)
+		if t.W < width {
+			t = term.SExt(t, width)
+		}
+		return Tuple{t, Iface{}}, true
+	}
+	reg("strconv.ParseInt", func(fr *frame, args []Value) Value {
+		if v, ok := parseTok(fr, args, 64); ok {
+			return v
+		}
+		return fr.m.execSSA(fr.caller, fr.fn, args, nil)
+	})
+	reg("strconv.Atoi", func(fr *frame, args []Value) Value {
+		if v, ok := parseTok(fr, args, 64); ok {
+			return v
+		}
+		return fr.m.execSSA(fr.caller, fr.fn, args, nil)
+	})
 	reg("strconv.Itoa", func(fr *frame, args []Value) Value {
 		return strconv.FormatInt(fr.conc(args[0], "strconv.Itoa"), 10)
 	})
